@@ -2,7 +2,7 @@ from vfeng import Unit, Harness
 PROPERTY = 'C06'
 NAMES = {0: 'min', 1: 'max', 2: 'abs', 3: 'ifthen', 4: 'and', 5: 'or', 6: 'not', 7: 'count', 9: 'alldiff', 10: 'implication'}
 def units(tier):
-    u = Unit('prepro', 'wrap.cc', 'harness.c', externs=['_ZSt18_Rb_tree_incrementPKSt18_Rb_tree_node_base', '_ZSt18_Rb_tree_incrementPSt18_Rb_tree_node_base', '_ZSt18_Rb_tree_decrementPSt18_Rb_tree_node_base', '_ZSt18_Rb_tree_decrementPKSt18_Rb_tree_node_base', '_ZSt29_Rb_tree_insert_and_rebalancebPSt18_Rb_tree_node_baseS0_RS_', 'vf_mc_newvar', 'vf_mc_narrow', '_ZN3fmt14BasicFormatterIcNS_12ArgFormatterIcEEE6formatENS_15BasicCStringRefIcEE'], extra_repo_cc=['src/std_constr.cc'],
+    u = Unit('prepro', 'wrap.cc', 'harness.c', externs=['_ZSt18_Rb_tree_incrementPKSt18_Rb_tree_node_base', '_ZSt18_Rb_tree_incrementPSt18_Rb_tree_node_base', '_ZSt18_Rb_tree_decrementPSt18_Rb_tree_node_base', '_ZSt18_Rb_tree_decrementPKSt18_Rb_tree_node_base', '_ZSt29_Rb_tree_insert_and_rebalancebPSt18_Rb_tree_node_baseS0_RS_', '_ZNSt8_Rb_treeIiSt4pairIKidESt10_Select1stIS2_ESt4lessIiESaIS2_EE8_M_eraseEPSt13_Rb_tree_nodeIS2_E', 'vf_mc_newvar', 'vf_mc_narrow', '_ZN3fmt14BasicFormatterIcNS_12ArgFormatterIcEEE6formatENS_15BasicCStringRefIcEE'], extra_repo_cc=['src/std_constr.cc'],
              ll2c_args=['--inline-mem', '1024'])
     u.stub_undefined = True; u.tool_c = ['vf_rbtree.c']; u.tv = False
     u.real_cxxflags = ['-fno-sanitize=vptr']      # the FlatModel object image has no vptr: UBSan's dynamic-type check does not apply to it
